@@ -1,5 +1,5 @@
 // ======================================================================================
-// units/C15/cfg_edit.rs — construction / editing operations of il::ControlFlowGraph (+ Edge::new,
+// units/C15/cfg_edit.rs - construction / editing operations of il::ControlFlowGraph (+ Edge::new,
 // Scalar::new).  Included inside `pub mod il` after il_core.rs and block_edit.rs.
 // Every edit: `requires old(self).cfg_wf()` (+ counter bounds), `ensures final(self).cfg_wf()` and the
 // exact effect on blocks, edges, entry, exit and the counters.
@@ -80,7 +80,7 @@ impl ControlFlowGraph {
 //@ end
 
 // block_mut hands out `&mut Block`: whether cfg_wf holds afterwards depends on what the caller stores
-// (the final block must keep its index and be block_wf) — stated as the /*@wf*/ implication.
+// (the final block must keep its index and be block_wf) - stated as the /*@wf*/ implication.
 //@ fn impl ControlFlowGraph :: fn block_mut
 //@ spec
     ensures
